@@ -68,6 +68,9 @@ let () =
              | "hll" -> hll_case (h, o)
              | "cuckoo" -> ck_case ((h, !u), o)
              | "qf" -> qf_case ((h, !u), o)
+             | "res" -> res_case o
+             | "lossy" -> lossy_case o
+             | "heap" -> heap_case (h, o)
              | s -> failwith ("unknown structure " ^ s)) in
          (match r with
           | None -> print_string "K\n"
